@@ -21,6 +21,8 @@ type Taint struct {
 
 	// Seed: values tainted from the start (e.g. a parameter when a summary is computed).
 	Seed []ssa.Value
+	// CleanLen: len and cap of a tainted slice are clean (the content is peer data, the extent is the caller's).
+	CleanLen bool
 
 	T map[ssa.Value]bool
 }
@@ -40,9 +42,21 @@ func (ta *Taint) mark(v ssa.Value, changed *bool) {
 
 // cellOf returns the local alloc a pointer expression refers into.
 func cellOf(v ssa.Value) *ssa.Alloc {
+	a, _ := baseOf(v).(*ssa.Alloc)
+	return a
+}
+
+// BaseOf is baseOf for the rules that name sources by the storage a receive writes into.
+func BaseOf(v ssa.Value) ssa.Value { return baseOf(v) }
+
+// baseOf returns the local storage (an alloc, or the backing array of a make([]T, n)) a pointer or slice
+// expression refers into, or nil.
+func baseOf(v ssa.Value) ssa.Value {
 	for {
 		switch t := v.(type) {
 		case *ssa.Alloc:
+			return t
+		case *ssa.MakeSlice:
 			return t
 		case *ssa.FieldAddr:
 			v = t.X
@@ -76,7 +90,7 @@ func (ta *Taint) Run() {
 				switch t := ins.(type) {
 				case *ssa.Store:
 					if ta.T[t.Val] {
-						if c := cellOf(t.Addr); c != nil {
+						if c := baseOf(t.Addr); c != nil {
 							ta.mark(c, &changed)
 						} else {
 							ta.mark(t.Addr, &changed)
@@ -86,7 +100,7 @@ func (ta *Taint) Run() {
 					if ta.T[t.X] {
 						ta.mark(t, &changed)
 					} else if t.Op == token.MUL {
-						if c := cellOf(t.X); c != nil && ta.T[c] {
+						if c := baseOf(t.X); c != nil && ta.T[c] {
 							ta.mark(t, &changed)
 						}
 					}
@@ -105,10 +119,22 @@ func (ta *Taint) Run() {
 					if ta.Sanitizer != nil && ta.Sanitizer(t) {
 						continue
 					}
+					if bi, ok := cc.Value.(*ssa.Builtin); ok && (bi.Name() == "len" || bi.Name() == "cap") && len(cc.Args) == 1 {
+						if ta.CleanLen {
+							continue
+						}
+						// the extent of make([]T, n) is n, whatever was written into it since
+						if ms, ok := cc.Args[0].(*ssa.MakeSlice); ok {
+							if (ta.T[ms.Len] || ta.T[ms.Cap]) && isVal {
+								ta.mark(v, &changed)
+							}
+							continue
+						}
+					}
 					if bi, ok := cc.Value.(*ssa.Builtin); ok && bi.Name() == "copy" && len(cc.Args) == 2 {
 						if ta.T[cc.Args[1]] {
 							ta.mark(cc.Args[0], &changed)
-							if c := cellOf(cc.Args[0]); c != nil {
+							if c := baseOf(cc.Args[0]); c != nil {
 								ta.mark(c, &changed)
 							}
 						}
@@ -118,7 +144,7 @@ func (ta *Taint) Run() {
 					for _, a := range cc.Args {
 						if ta.T[a] {
 							any = true
-						} else if c := cellOf(a); c != nil && ta.T[c] {
+						} else if c := baseOf(a); c != nil && ta.T[c] {
 							any = true
 						}
 					}
@@ -131,7 +157,7 @@ func (ta *Taint) Run() {
 						}
 						// pointer arguments may be written by the callee
 						for _, a := range cc.Args {
-							if c := cellOf(a); c != nil {
+							if c := baseOf(a); c != nil {
 								if _, isPtr := a.Type().Underlying().(*types.Pointer); isPtr {
 									ta.mark(c, &changed)
 								}
@@ -229,7 +255,7 @@ func (ta *Taint) Why(v ssa.Value, depth int) []string {
 		}
 		var next ssa.Value
 		if ld, ok := v.(*ssa.UnOp); ok && ld.Op == token.MUL {
-			if c := cellOf(ld.X); c != nil && ta.T[c] {
+			if c := baseOf(ld.X); c != nil && ta.T[c] {
 				next = c
 			}
 		}
